@@ -13,13 +13,13 @@ Extraction "model.ml"
   divexact_q_I divexact_q_ul divexact_q_l divexact_I divexact_ul divexact_l
   op_diveq_I op_diveq_ul op_diveq_l op_diveq_u op_diveq_i op_diveq_T
   op_div_I op_div_ul op_div_l op_div_u op_div_i
-  divmod_I divmod_l divmod_l_fixed divmod_ul
+  divmod_I divmod_l divmod_ul
   ceil_r floor_r trunc_r ceil_v floor_v trunc_v
-  trem_I crem_I frem_I trem_ul crem_ul frem_ul trem_w crem_w frem_w trem_w_fixed crem_w_fixed
+  trem_I crem_I frem_I trem_ul crem_ul frem_ul trem_w crem_w frem_w
   w_div_I
   modin_I modin_ul modin_l mod_I mod_l mod_ul mod_i mod_u
-  op_modeq_I op_modeq_ul op_modeq_l op_modeq_l_fixed op_modeq_u op_modeq_i op_modeq_i_fixed op_modeq_T
+  op_modeq_I op_modeq_ul op_modeq_l op_modeq_u op_modeq_i op_modeq_T
   op_mod_I op_mod_ul op_mod_l op_mod_u op_mod_i op_mod_us op_mod_Ts op_mod_d w_mod_I
-  dom_div dom_divin dom_mod dom_modin dom_divmod dom_divexact dom_quo dom_quo_fixed dom_rem
-  dom_quoin dom_quoin_fixed dom_remin dom_quoRem dom_isDivisor.
+  dom_div dom_divin dom_mod dom_modin dom_divmod dom_divexact dom_quo dom_quo_floor dom_rem
+  dom_quoin dom_remin dom_quoRem dom_isDivisor.
 Cd "..".
